@@ -127,8 +127,9 @@ let destroy_obj o =
          let encp = function None -> zi 0 | Some q -> zi (i q + 2) in
          let mem_of (s : state) a = let k = int_of_z a in if k = 1 then encp s.head else if k >= 2 then encp (s.link (n (k - 2))) else zi 0 in
          let sp k = (!dcount mod 3 = 0) && i k = 9 in      (* one spurious failure on every third push *)
-         (match Gen_DataRow.destroy sp (n 10) (zi (i r + 2)) (zi 1) (zi 1) (mem_of before) with
-          | GenPrelude.Ok (_, m') ->
+         (match Gen_DataRow.destroy sp (n 10) (zi (i r + 2)) (zi 1) (zi 1) (mem_of before) (zi 5) with
+          | GenPrelude.Ok ((_, m'), mo) ->
+              if int_of_z mo <> 5 then raise (Stuck "generated-destructor-uses-a-weaker-memory-order");
               let after = !lst.lbase in
               for k = 1 to !maxrow + 2 do
                 if int_of_z (m' (zi k)) <> int_of_z (mem_of after (zi k)) then raise (Stuck "generated-destructor-differs-from-model")
@@ -178,6 +179,7 @@ let event_l ev =
                            firel (LB (ORemove (n old, None))); firel (LAdd (n (Stdlib.List.nth !det k))); erase k
             | _ -> raise (Stuck "bad-P"))
   | 'R' -> firel (LB (ORemove (n (int_of_string arg), None)))
+  | 'Q' -> Stdlib.List.iter (fun r -> firel (LB (ORemove (n r, None)))) (ids_of arg)     (* Remove(rowFilter): direct pvDestroyRaw of each *)
   | 'D' -> erase (slot_of (int_of_string arg))
   | 'W' -> (match ids_of arg with
             | [_; k; j] -> move_assign (Stdlib.List.nth !det k) (Stdlib.List.nth !det j)
